@@ -231,7 +231,7 @@ theorem bnLabel_ok (T : Tables) (hT : TablesOK T) (l rest : List Nat) (hl : labe
     · simp [NQG.bnLabelBody, hT.pn_sp]
     · have hz : inRanges T.pnChars z = true := by simpa using h3
       have := bnLabelBody_ok T hT rest z hz init none
-        (fun x hx => h2 x (List.mem_append_left _ hx))
+        (fun x hx => h2 x (by simp [hx]))
       simpa using this
 
 /-! ### terms -/
@@ -249,5 +249,120 @@ theorem node_ok (T : Tables) (hT : TablesOK T) (urlOk : List Nat → Bool) (a : 
     simp only [nodeW, List.cons_append, NQG.node]
     exact bnLabel_ok T hT _ rest (hl.wf b)
   | lit l d t => exact ht.elim
+
+
+theorem literal_ok (T : Tables) (hT : TablesOK T) (hG : TablesGrammar T) (urlOk : List Nat → Bool)
+    (a : Bool) (lex dt : List Nat) (lang : Option (List Nat)) (h : WFLit urlOk lex dt lang)
+    (rest : List Nat) :
+    NQG.literal (writeLiteral T a lex dt lang ++ 0x20 :: rest) = some (0x20 :: rest) := by
+  obtain ⟨_, _, hlang⟩ := h
+  unfold writeLiteral
+  simp only
+  split
+  · simp only [List.cons_append, List.append_assoc, List.nil_append, NQG.literal]
+    rw [stringLit_body T hT hG]
+  · split
+    · next hl =>
+      subst hl
+      cases lang with
+      | none => exact absurd rfl hlang
+      | some t =>
+        simp only [List.cons_append, List.append_assoc, List.nil_append, NQG.literal]
+        rw [stringLit_body T hT hG]
+        exact langtag_ok rest t false hlang.2
+    · simp only [writeIRI, List.cons_append, List.append_assoc, List.nil_append, NQG.literal]
+      rw [stringLit_body T hT hG]
+      exact iriref_body T hT a dt _
+
+theorem object_ok (T : Tables) (hT : TablesOK T) (hG : TablesGrammar T) (urlOk : List Nat → Bool)
+    (a : Bool) (label : β → List Nat) (hl : LabelsOK T label) (t : Term β) (ht : WFObject urlOk t)
+    (rest : List Nat) :
+    NQG.object (inRanges T.pnCharsU) (inRanges T.pnChars) (objW T a label t ++ 0x20 :: rest)
+      = some (0x20 :: rest) := by
+  cases t with
+  | iri v =>
+    have := node_ok T hT urlOk a label hl (.iri v) ht rest
+    simp only [objW, nodeW, writeIRI, List.cons_append] at this ⊢
+    simpa [NQG.object] using this
+  | bnode b =>
+    have := node_ok T hT urlOk a label hl (.bnode b) trivial rest
+    simp only [objW, nodeW, List.cons_append] at this ⊢
+    simpa [NQG.object] using this
+  | lit l d tg =>
+    have := literal_ok T hT hG urlOk a l d tg ht rest
+    obtain ⟨r, hr⟩ := writeLiteral_head T a l d tg
+    simp only [objW]
+    rw [hr] at this ⊢
+    simpa [NQG.object] using this
+
+theorem skipWs_sp (c : Nat) (r : List Nat) (hc : c = 0x22 ∨ c = 0x3c ∨ c = 0x5f ∨ c = 0x2e) :
+    NQG.skipWs (0x20 :: c :: r) = c :: r := by
+  rcases hc with rfl | rfl | rfl | rfl <;> simp [NQG.skipWs, NQG.isWs]
+
+theorem skipWs_id (c : Nat) (r : List Nat) (hc : c = 0x22 ∨ c = 0x3c ∨ c = 0x5f ∨ c = 0x2e) :
+    NQG.skipWs (c :: r) = c :: r := by
+  rcases hc with rfl | rfl | rfl | rfl <;> simp [NQG.skipWs, NQG.isWs]
+
+theorem line_nil (pnU pn : Nat → Bool) (quads : Bool) : NQG.line pnU pn quads [] = true := by
+  simp [NQG.line, NQG.skipWs]
+
+theorem line_ok (T : Tables) (hT : TablesOK T) (hG : TablesGrammar T) (urlOk : List Nat → Bool)
+    (a : Bool) (label : β → List Nat) (hl : LabelsOK T label) (quads : Bool) (q : Quad β)
+    (h : WFQuad urlOk q) :
+    NQG.line (inRanges T.pnCharsU) (inRanges T.pnChars) quads (quadBody T a label quads q) = true := by
+  obtain ⟨s, p, o, g⟩ := q
+  have hs := h.s; have hp := h.p; have ho := h.o; have hg := h.g
+  simp only at hs hp ho hg
+  cases p with
+  | bnode b => exact hp.elim
+  | lit l d t => exact hp.elim
+  | iri pv =>
+  obtain ⟨cs, rs, hcs, hcs'⟩ := nodeW_head T a label urlOk s hs
+  obtain ⟨co, ro, hco, hco'⟩ := objW_head T a label urlOk o ho
+  have hnode := node_ok T hT urlOk a label hl s hs
+  have hobj := object_ok T hT hG urlOk a label hl o ho
+  rw [hcs] at hnode
+  rw [hco] at hobj
+  have hpw : nodeW T a label (Term.iri pv) = 0x3c :: (iriBody T a pv ++ [0x3e]) := rfl
+  unfold NQG.line
+  simp only [quadBody, hcs, hco, hpw, List.cons_append, List.append_assoc,
+    List.nil_append] at hnode hobj ⊢
+  rw [skipWs_id cs _ (by omega), hnode]
+  simp only
+  rw [skipWs_sp 0x3c _ (by omega)]
+  simp only
+  rw [iriref_body T hT a pv]
+  simp only
+  rw [skipWs_sp co _ (by omega)]
+  have tail_dot : ∀ (r : List Nat), r = [] →
+      NQG.skipWs (0x20 :: 0x2e :: r) = 0x2e :: r := fun r _ => skipWs_sp 0x2e r (by omega)
+  cases quads with
+  | false =>
+    have : graphW T a label false g = [] := by cases g <;> simp [graphW]
+    simp only [this, List.nil_append]
+    rw [hobj]
+    simp [NQG.skipWs, NQG.isWs]
+  | true =>
+    cases g with
+    | none =>
+      simp only [graphW, List.nil_append]
+      rw [hobj]
+      simp [NQG.skipWs, NQG.isWs]
+    | some g =>
+      have hg' := hg g rfl
+      obtain ⟨cg, rg, hcg, hcg'⟩ := nodeW_head T a label urlOk g hg'
+      have hgn := node_ok T hT urlOk a label hl g hg' [0x2e]
+      simp only [graphW, if_true, List.cons_append]
+      rw [hobj]
+      rw [hcg] at hgn ⊢
+      simp only [List.cons_append] at hgn ⊢
+      rw [skipWs_sp cg _ (by omega)]
+      rcases hcg' with rfl | rfl
+      · simp only []
+        rw [hgn]
+        simp [NQG.skipWs, NQG.isWs]
+      · simp only []
+        rw [hgn]
+        simp [NQG.skipWs, NQG.isWs]
 
 end RdfModel.Proofs.C01
